@@ -295,6 +295,92 @@ def opCall (kindStyle prov scope : String) (items : List String) : String :=
         | r => showOutcomeC r
     else "bad-op"
 
+/-! ## histories -/
+
+structure HParse where
+  aliases : List (String × Ann) := []
+  ops : List HOp := []
+  err : Option String := none
+
+def lookupAlias (al : List (String × Ann)) (k : String) : Option Ann :=
+  match al with
+  | [] => none
+  | (k', a) :: rest => if k' == k then some a else lookupAlias rest k
+
+def unionKind (opt : String) (h : Hint) : Hint :=
+  match opt with
+  | "1" => .union [h, .none] | "2" => .union [h, .plain] | "3" => .union [h, .plain, .none]
+  | "4" => .union [h, .none] | "5" => .union [.none, h] | "7" => .union [h, .none]
+  | _ => h
+
+/-- `alias:opt` | `-` -/
+def aliasHint (al : List (String × Ann)) (s : String) : Option Hint :=
+  if s == "-" then some .plain else
+  match s.splitOn ":" with
+  | [a, opt] => (lookupAlias al a).map fun ann =>
+      let h : Hint := if opt == "6" then .annotated false (some ann) else .annotated true (some ann)
+      unionKind opt h
+  | _ => none
+
+/-- `alias:opt` or `alias:opt+alias:opt` (tuple) -/
+def aliasHints (al : List (String × Ann)) (s : String) : Option Hint :=
+  if s.startsWith "(" then
+    let inner := ((s.drop 1).dropEnd 1).toString
+    let parts := if inner.isEmpty then [] else inner.splitOn "+"
+    (parts.mapM (aliasHint al)).map Hint.tuple
+  else aliasHint al s
+
+def parseHValue (s : String) : Value :=
+  if s.startsWith "U:" then
+    let body := (s.drop 2).toString
+    .tup ((if body.isEmpty then [] else body.splitOn "+").map parseValue)
+  else parseValue s
+
+def parseHStep (hp : HParse) (st : String) : HParse :=
+  match st.splitOn "|" with
+  | ["A", alias, spec] =>
+    match parseAnnSpec spec with
+    | .good a => { hp with aliases := hp.aliases ++ [(alias, a)] }
+    | .bad e => { hp with err := hp.err <|> some e }
+    | .absent => { hp with err := hp.err <|> some "bad-op" }
+  | ["V", pid, kind, scope] => { hp with ops := hp.ops ++ [.setProvider pid (kind != "bad") (parseScope scope)] }
+  | ["S", pid, scope] => { hp with ops := hp.ops ++ [.setScope pid (parseScope scope)] }
+  | ["D", fid, pid, params, ret, nested] =>
+    let ps := (splitSemi params).map fun p =>
+      match p.splitOn "=" with
+      | [n, h] => (aliasHints hp.aliases h).map fun hh => (n.toList, hh)
+      | _ => none
+    let r : Option (Option Hint) := if ret == "-" then some none else (aliasHints hp.aliases ret).map some
+    match ps.mapM id, r with
+    | some ps', some r' =>
+      let selfP := pid.startsWith "self:"
+      let provider := if pid == "-" then none else some (if selfP then (pid.drop 5).toString else pid)
+      let hf : HFunc := { provider, selfProvider := selfP || pid == "selfraw", isMethod := selfP, params := ps', ret := r',
+                          nested := if nested == "-" then none else some nested }
+      let hf := if pid == "selfraw" then { hf with provider := none, isMethod := false } else hf
+      { hp with ops := hp.ops ++ [.decorate fid hf] }
+    | _, _ => { hp with err := hp.err <|> some "bad-op" }
+  | ["C", fid, names, vals, ret] =>
+    let ns := splitSemi names
+    let vs := (splitSemi vals).map parseHValue
+    let body := if ret == "!" then BodyResult.raises else if ret == "-" then .returns .none else .returns (parseHValue ret)
+    { hp with ops := hp.ops ++ [.call fid ((ns.zip vs).map fun (n, v) => (n.toList, v)) body] }
+  | _ => { hp with err := hp.err <|> some "bad-op" }
+
+def showOut : Out → Option String
+  | .none => none
+  | .decorErr => some "decor pyexc TypeError"
+  | .verdict c r => some ("calls=" ++ toString c ++ " " ++ showEnd r)
+  | .unknownFunc => some "unknown"
+
+def opHist (steps : List String) : String :=
+  let hp := steps.foldl parseHStep {}
+  match hp.err with
+  | some e => "decor " ++ e
+  | none =>
+    let (_, outs) := exec genAcc {} hp.ops
+    " ## ".intercalate (outs.filterMap showOut ++ ["state provsame=1 annsame=1"])
+
 /-! ## specification side (independent oracle), printed after a tab -/
 
 def specDim (s : List Char) : String :=
@@ -332,6 +418,7 @@ def handle (line : String) : String :=
   | ["CHECK", spec, dt, dims] => opCheck spec dt dims
   | "CTX" :: scope :: cmds => opCtx scope cmds
   | "CALL" :: kind :: prov :: scope :: items => opCall kind prov scope items
+  | "HIST" :: steps => opHist steps
   | _ => "bad-op"
 
 partial def mainLoop (h : IO.FS.Stream) (out : IO.FS.Stream) : IO Unit := do
